@@ -30,7 +30,7 @@ column below the key count. -/
 theorem hit_generator_columns_lt_total {A : PArith F} (hA : RangeLaw A) (g : HitIn F)
     (h1 : 1 ≤ g.total) (h16 : g.total ≤ 16) (stair : Nat) (s : Osu) (p : Pat) (s' : Osu) (stair' : Nat)
     (h : hitGenerate A g stair s = .ok (p, s', stair')) : ∀ n ∈ p.notes, n.col < g.total :=
-  hitGenerate_ok hA g h1 h16 stair s _ h
+  (hitGenerate_ok hA g h1 h16 stair s _ h).1
 
 /-- **(a) path (slider) generator**: every note of every pattern `generate()` returns (the
 intermediate pattern and the end-time pattern), for every span count, times and segment duration
@@ -38,13 +38,13 @@ intermediate pattern and the end-time pattern), for every span count, times and 
 theorem path_generator_columns_lt_total {A : PArith F} (hA : RangeLaw A) (g : PathIn F)
     (h1 : 1 ≤ g.total) (h16 : g.total ≤ 16) (s : Osu) (ps : List Pat) (s' : Osu)
     (h : pathGenerate A g s = .ok (ps, s')) : ∀ p ∈ ps, ∀ n ∈ p.notes, n.col < g.total :=
-  pathGenerate_ok hA g h1 h16 s _ h
+  fun p hp => (pathGenerate_ok hA g h1 h16 s _ h p hp).1
 
 /-- **(a) end-time (spinner / hold) generator.** -/
 theorem end_generator_columns_lt_total {A : PArith F} (hA : RangeLaw A) (g : EndIn)
     (h1 : 1 ≤ g.total) (h16 : g.total ≤ 16) (s : Osu) (p : Pat) (s' : Osu)
     (h : endGenerate A g s = .ok (p, s')) : ∀ n ∈ p.notes, n.col < g.total :=
-  endGenerate_ok hA g h1 h16 s _ h
+  (endGenerate_ok hA g h1 h16 s _ h).1
 
 /-- **(a) lifted over the whole conversion.**  For every seed-derived or arbitrary start state,
 every list of source objects (circles, sliders, spinners with arbitrary parameters and flags) and
@@ -55,7 +55,7 @@ theorem convert_columns_lt_total {A : PArith F} (hA : RangeLaw A) (total : Nat) 
     (trace : List (Emitted × ConvSt)) (stf : ConvSt)
     (h : convertLoop A total cd fuel st os = .ok (trace, stf)) :
     ∀ e ∈ trace, ∀ p ∈ e.1, ∀ n ∈ p.notes, n.col < total :=
-  convertLoop_ok hA total h1 h16 cd fuel os st _ h
+  fun e he p hp => (convertLoop_ok hA total h1 h16 cd fuel os st _ h e he p hp).1
 
 /-- The hypothesis on the arithmetic is satisfiable: the exact `next_int_range`
 (`trunc(lo + n/2³¹·(hi − lo))`, `Lemmas/Rng.lean`) stays in `[lo, hi)`. -/
